@@ -379,6 +379,60 @@ func c43Extra(r *Run) error {
 }
 
 func c25Extra(r *Run) error {
+	// who may assign a stored credential: the census of writers of defs.User.Password in the credential stores
+	if f := r.structField(modInternal+"defs", "User", "Password"); f != nil {
+		allowed := map[string]string{
+			"auth.ValidatePassword":             "the bcrypt upgrade of an accepted legacy credential (under contract)",
+			"auth.SetUser":                      "stores the credential an administrator supplied",
+			"auth.(*databaseService).ListUsers": "masks the credential in the listing it returns (a copy)",
+			"auth.(*fileService).ListUsers":     "masks the credential in the listing it returns (a copy)",
+		}
+		var bad, ok []string
+		seen := map[string]bool{}
+		if apk := r.Prog.Pkgs[modInternal+"server/auth"]; apk != nil && apk.TypesInfo != nil {
+			for _, file := range apk.Syntax {
+				if strings.HasSuffix(r.Prog.Fset.Position(file.Pos()).Filename, "_test.go") {
+					continue
+				}
+				for _, d := range file.Decls {
+					fd, isFn := d.(*ast.FuncDecl)
+					if !isFn || fd.Body == nil {
+						continue
+					}
+					obj, _ := apk.TypesInfo.Defs[fd.Name].(*types.Func)
+					if obj == nil {
+						continue
+					}
+					name := shortFuncName(obj.FullName())
+					ast.Inspect(fd.Body, func(n ast.Node) bool {
+						as, isAssign := n.(*ast.AssignStmt)
+						if !isAssign {
+							return true
+						}
+						for _, l := range as.Lhs {
+							sel, isSel := l.(*ast.SelectorExpr)
+							if !isSel {
+								continue
+							}
+							// a local copy counts too: it is usually stored back
+							if v, _ := apk.TypesInfo.Uses[sel.Sel].(*types.Var); v == f && !seen[name] {
+								seen[name] = true
+								if why, found := allowed[name]; found {
+									ok = append(ok, name+": "+why)
+								} else {
+									bad = append(bad, name+" ("+r.Prog.Fset.Position(as.Pos()).String()+")")
+								}
+							}
+						}
+						return true
+					})
+				}
+			}
+		}
+		sort.Strings(ok)
+		sort.Strings(bad)
+		r.table("C25/credential-writers[auth]", len(bad) == 0 && len(ok) > 0, "in the credential stores (package auth) a stored credential is assigned only by the listed functions; loading, reading and caching never rewrite it", fmt.Sprintf("writers: %v; not on the list: %v", ok, bad))
+	}
 	r.cacheWriteThrough("C25/user-cache-write-through[auth]", modInternal+"server/auth", "userHandle", "caches.AuthCache", "Read",
 		"every function of the database user store that writes the credentials table keeps the cached user record honest (so ReadUser, which ValidatePassword consults, cannot keep answering with the credential as it was)")
 	return nil
